@@ -252,7 +252,7 @@ func (r *replayer) caseFor(hr *HarnessResult, v *Violation) *replayCase {
 func (r *replayer) replayViolation(hr *HarnessResult, v *Violation) (string, bool, string) {
 	rc := r.caseFor(hr, v)
 	r.n++
-	dir := filepath.Join(verifDir(), "replays")
+	dir := filepath.Join(outDir(), "replays")
 	os.MkdirAll(dir, 0o755)
 	_, fn := harnessRel(hr.Harness)
 	path := filepath.Join(dir, fmt.Sprintf("%s-%s-%s-%d.json", r.prop, fn, tagRe.ReplaceAllString(v.Assert, "_"), r.n))
@@ -315,7 +315,7 @@ func (r *replayer) validateSamples(hr *HarnessResult) (int, int, []string) {
 				}
 			}
 			// keep the file for inspection
-			keep := filepath.Join(verifDir(), "replays", fmt.Sprintf("%s-%s-validation-%d.json", r.prop, fn, i))
+			keep := filepath.Join(outDir(), "replays", fmt.Sprintf("%s-%s-validation-%d.json", r.prop, fn, i))
 			os.MkdirAll(filepath.Dir(keep), 0o755)
 			os.WriteFile(keep, b, 0o644)
 			msgs = append(msgs, fmt.Sprintf("translator validation: %s passes in the executor but natively: %s (replay=%s)", hr.Harness, verdict, keep))
